@@ -1,0 +1,5 @@
+//go:build !verif
+
+package transport
+
+func verifYield(point string, id string) {}
